@@ -98,7 +98,7 @@ def end_oracle(name, sim, case, engaged, user_ended, what):
     fin = sim.final()
     never_connected = sim.role == 'requestor' and sim.sock.connected_to is None
     if fin['state'] != 1 or not fin['sock_none'] or not (fin['closed'] or never_connected):
-        raise Violation('C13:not-idle', '%s (%s): ended in Sta%d, socket closed=%s, dul_socket None=%s'
+        raise Violation('C13:not-idle', '%s (%s): ended in Sta%s, socket closed=%s, dul_socket None=%s'
                         % (name, what, fin['state'], fin['closed'], fin['sock_none']), case)
     if fin['artim']:
         raise Violation('C13:artim-left-running', '%s (%s): idle with ARTIM still running' % (name, what), case)
@@ -144,7 +144,7 @@ def run_disconnects(ctx, name, role, steps, only=None):
                 later = [s for s in sim.snaps if s['next'] > close_idx + (1 if user_after else 0)]
                 if later and later[0]['state'] not in (1,):
                     # allowed only if the provider legitimately waits for ARTIM (never after a peer close)
-                    raise Violation('C13:slow', '%s: still in Sta%d after the peer disconnected'
+                    raise Violation('C13:slow', '%s: still in Sta%s after the peer disconnected'
                                     % (name, later[0]['state']), case)
             except Violation as v:
                 ctx.fail(v.key, v.what, v.case)
@@ -398,7 +398,7 @@ def run_kill_stop(ctx, name, role, steps, only=None):
             ctx.fail('C13:stop:%s' % sim.outcome[0], '%s: stop() at step %d: run() outcome %r' % (name, i, sim.outcome), case)
         for state, res in sim.stop_results:
             if bool(res) != (state == 1):
-                ctx.fail('C13:stop-result', '%s: stop() returned %r in Sta%d' % (name, res, state), case)
+                ctx.fail('C13:stop-result', '%s: stop() returned %r in Sta%s' % (name, res, state), case)
             if res and not sim.final()['loop_exited_flag']:
                 ctx.fail('C13:stop-exit', '%s: stop() returned True but the loop did not exit' % name, case)
 
